@@ -198,9 +198,11 @@ def run_obs(traces, wd, batch_events=15000):
 
 
 def write_evidence(prop, tier, seed, level, coverage, assumptions, wall, violations):
-    os.makedirs(os.path.join(ROOT, "evidence"), exist_ok=True)
+    # evidence/ describes /repo itself; a run against another tree (VERIF_REPO: a seeded change in a scratch worktree) writes elsewhere
+    edir = "evidence" if REPO == "/repo" else os.path.join(".work", "evidence-other-tree")
+    os.makedirs(os.path.join(ROOT, edir), exist_ok=True)
     ev = {"property_id": prop, "tier": tier, "seed": seed, "level": level, "coverage": coverage,
           "assumptions": assumptions, "wall_s": round(wall, 2), "violations": violations}
-    with open(os.path.join(ROOT, "evidence", prop + ".json"), "w") as f:
+    with open(os.path.join(ROOT, edir, prop + ".json"), "w") as f:
         json.dump(ev, f, indent=1)
     return ev
